@@ -148,7 +148,15 @@ def nest_texts(draw):
             lines.append("%sglobal %s" % (ind, draw(st.sampled_from(names)))) if not any(l.startswith(ind) and "=" in l for l in lines[-3:]) else None
         used = [n for n in names if draw(st.booleans())] or [draw(st.sampled_from(names))]
         lines.append("%su%d = %s" % (ind, d, " + ".join(used)))
-    tail = draw(st.sampled_from(["none", "comp", "lambda_free", "inner_def", "comps_out_of_visit_order"]))
+    tail = draw(st.sampled_from(["none", "comp", "lambda_free", "inner_def", "comps_out_of_visit_order", "self_rebinds_member"]))
+    if tail == "self_rebinds_member":
+        # a method assigns, through self, an attribute named like a method / nested class / decorated member defined
+        # earlier (or later) in the class body
+        before = draw(st.booleans())
+        member = ["%sclass Holder:" % ind]
+        defs = ["%s    def handler(self, v):\n%s        return v" % (ind, ind), "%s    class Meta:\n%s        pass" % (ind, ind), "%s    @property\n%s    def size(self):\n%s        return 1" % (ind, ind, ind)]
+        setter = "%s    def disable(self):\n%s        self.handler = None\n%s        self.Meta = 0" % (ind, ind, ind)
+        lines.extend(member + (defs + [setter] if before else [setter] + defs))
     if tail == "comps_out_of_visit_order":
         # several comprehensions in one expression whose AST field order is not their textual order
         a, b, c = (draw(st.sampled_from(names)) for _ in range(3))
@@ -453,6 +461,40 @@ def evaluate(case, env):
                 "names:%s:%s" % (ref.kind, "missing" if miss and not extra else "extra" if extra and not miss else "both"),
                 "%s %r (line %d): interpreter-bound but not in rope %s; in rope but not bound %s" % (ref.kind, ref.name, ref.start, miss[:6], extra[:6]),
             )
+
+    # (2b) a name that the scope's own body binds only through def / class statements is the definition: its recorded
+    #      definition line is the line of one of those statements (not, say, a later self.<name> = ... inside a method)
+    for ref, rp in pairs:
+        if ref.kind not in ("module", "class", "function") or not hasattr(ref.node, "body"):
+            continue
+        defs_ = {}
+        other_ = set()
+        for st_ in ref.node.body:
+            if isinstance(st_, (ast.FunctionDef, ast.AsyncFunctionDef, ast.ClassDef)):
+                defs_.setdefault(st_.name, set()).add(st_.lineno)
+            else:
+                for n_ in ast.walk(st_):
+                    if isinstance(n_, ast.Name) and not isinstance(n_.ctx, ast.Load):
+                        other_.add(n_.id)
+                    elif isinstance(n_, (ast.FunctionDef, ast.AsyncFunctionDef, ast.ClassDef)):
+                        other_.add(n_.name)
+                    elif isinstance(n_, ast.alias):
+                        other_.add((n_.asname or n_.name).split(".")[0])
+                    elif isinstance(n_, (ast.Global, ast.Nonlocal)):
+                        other_.update(n_.names)
+        for name_, lines_ in sorted(defs_.items()):
+            if name_ in other_ or name_ in getattr(ref, "globals", ()):
+                continue
+            out.evals += 1
+            try:
+                pn_ = rp.get_names().get(name_)
+                loc_ = pn_.get_definition_location()[1] if pn_ is not None else None
+            except Exception as e:
+                vio("definition_line_raised:" + type(e).__name__, "%s in %s %r: %r" % (name_, ref.kind, ref.name, e))
+                break
+            if pn_ is not None and loc_ not in lines_:
+                vio("definition_line:%s" % ref.kind, "%r is bound in %s %r by def/class at line(s) %s only; rope records line %s" % (name_, ref.kind, ref.name, sorted(lines_), loc_))
+                break
 
     # (3) lookup
     if ok_tree[0]:
